@@ -163,3 +163,10 @@ reg("C20", "exploration", "TLA+ framing reference KnxIpFrame evaluated by TLC on
     "exactly the announced length; 'incomplete' only when more octets could complete the frame.",
     "Trusted: TLC, the header-level reading of 'could complete the frame'. Sampling of octet positions in quick; all positions in thorough.",
     "DESIGN.md section 5 C20")
+
+reg("C21", "exploration", "TLA+ law RoundTripOk (KnxIpFrame.tla) evaluated by TLC on every recorded serialise / parse / re-serialise session of the KNX/IP body corpus",
+    "Every body class with the field shapes the standard allows (HPAI variants, CRI/CRD, DIB lists of every kind and length, SRP lists, all error codes, feature types, "
+    "session status codes, raw cEMI of 0..254 octets, SecureWrapper payloads) is put into a frame, serialised, parsed and serialised again by the real classes; TLC judges "
+    "each session: length equals the announced total, total = 6 + calculated_length, nothing left over, equal body, identical octets the second time.",
+    "Trusted: TLC; equality is the library's own. Error ConnectResponses (8 octets on the wire) cannot be built by the library and are covered by C20 only.",
+    "DESIGN.md section 5 C21")
